@@ -89,6 +89,8 @@ func init() {
 				Bound: "document {K1:V1, m:{K3:V3, x:leaf}, l:[V4, leaf]}: one of the five string positions is every printable-ASCII byte string of length <= 6 (quick) / 8 (thorough) satisfying plain(); a second position takes each of 14 plain look-alikes ($FOO, ${X}, $(cmd), $, $A, $\"x, ...); leaves nil/7 (quick) or symbolic-kind scalars incl. nil (thorough)"},
 			{Pkg: "bkl", Func: "HarnessC06_escape", Tiers: "qt", Covers: []string{"escape.single", "escape.layered"},
 				Bound: "same skeleton, the symbolic string unconstrained; second position from 31 tokens incl. every directive name; $ doubled in keys and values; evaluated alone and as the child of a layer"},
+			{Pkg: "bkl", Func: "HarnessC06_unicode", Tiers: "qt", Covers: []string{"unicode.checked"},
+				Bound: "\"$\" + one of É € 日 😀 → × (2-, 3-, 4-byte UTF-8, none a lower-case letter) + every printable tail of <= 2 bytes, as value, key and list entry, plain and $-doubled"},
 			{Pkg: "bkl", Func: "HarnessC06_keys", Tiers: "qt", Covers: []string{"keys.checked"},
 				Bound: "two sibling keys symbolic at once over the alphabet {$,a,x}, length <= 3 (quick) / 4 (thorough), assumed different"},
 		},
@@ -285,6 +287,8 @@ func init() {
 		Harnesses: []harnessSpec{
 			{Pkg: "bkl", Func: "HarnessC18_root", Tiers: "qt", Covers: []string{"root.inside", "root.escape"},
 				Bound: "root /w/root with a decoy layer outside it; 8 ways to reach for it ($parent with .., absolute $parent, input symlink, file-name parent symlink, directory symlink, chained symlinks, absolute symlink target, and a control that stays inside) x 4 root spellings (relative, with ./.. segments, absolute, nested SetRoot calls); three-fold self-composition: decoy content D1, content D2 (symbolic), decoy absent -> same status and output; every escape fails; no content obtained from outside the root"},
+			{Pkg: "bkl", Func: "HarnessC18_nested", Tiers: "qt", Covers: []string{"nested.widen", "nested.narrow"},
+				Bound: "after SetRoot(root): a second SetRoot to the parent (., .., absolute), through directory symlinks leaving the root (root/up -> .., root/far -> ../elsewhere) must fail and leave the parser confined; narrowing to root/sub works and confines to it; decoy present/absent self-composition"},
 		},
 		Assume:  vfsAssume,
 		Outside: "the real semantics of os.Root and the kernel (assumed by contract, cross-checked on the sampled paths by native replay against the real os.Root); races with concurrent file-system changes; the CLI flag",
